@@ -35,8 +35,8 @@ func (e *Engine) verifyFunc(name, prop string, cfg solverCfg, verbose bool) *fun
 	}
 	fr.VC = vc
 	glueCfg := cfg
-	if glueCfg.timeoutMs > 5000 {
-		glueCfg.timeoutMs = 5000
+	if glueCfg.timeoutMs > 2000 {
+		glueCfg.timeoutMs = 2000
 	}
 	for iter := 1; iter <= 12; iter++ {
 		fr.Iter = iter
